@@ -11,9 +11,80 @@ RULE = ("random programs of context-aware ops inside nested `with model:` blocks
         "cross-references, raw GLPK problem) at __enter__ vs after __exit__; counted: distinct (model, last three ops) of traces with >= 3 ops")
 
 
+def helper_stage(ctx):
+    """Analysis helpers inside contexts (C03's quantifier names them): inside `with model:` the solver problem is what the Lean builder of the
+    helper says (AuxM.Net.pfba / moma / room / fixObjective / loopless), after leaving it is `AuxM.Net.fba` of the content again — also when a
+    second application of the helper raises inside the block, and with the helpers nested."""
+    import auxcorr
+    from c05 import gen_bounded_spec
+    from cobra.flux_analysis.parsimonious import add_pfba
+    from cobra.flux_analysis.moma import add_moma
+    from cobra.flux_analysis.room import add_room
+    from cobra.flux_analysis.loopless import add_loopless
+    from cobra.util.solver import fix_objective_as_constraint
+    from cobra.exceptions import OptimizationError
+
+    def f(make, spec, rng):
+        m = make()
+        ref = auxcorr.pfba_reference(make(), dyadic=True)
+        net = auxcorr.net_json(m)
+        pairs = []
+
+        def now(line):
+            with auxcorr.capture() as got:
+                m.slim_optimize()
+            pairs.append((line, got[-1]))
+        helper = rng.choice(["pfba", "moma", "room", "fix", "loopless", "pfba_in_fix"])
+        raised = None
+        try:
+            with m:
+                if helper == "pfba":
+                    add_pfba(m, fraction_of_optimum=0.5)
+                    name = [k for k in m.constraints.keys() if k.startswith("fixed_objective_")][0]
+                    now({"net": net, "build": "pfba", "name": name, "t": auxcorr.row_bound(auxcorr.raw_dump(m.solver.problem), name, net["dir"])})
+                    if rng.random() < 0.5:
+                        add_pfba(m)                       # "The model already has a pFBA objective": raises inside the block
+                elif helper == "moma":
+                    add_moma(m, solution=ref, linear=True)
+                    now({"net": net, "build": "moma", "old": "moma_old_objective", "ref": [auxcorr.canon.num(float(ref.fluxes[r.id])) for r in m.reactions]})
+                    if rng.random() < 0.5:
+                        add_moma(m, solution=ref, linear=True)   # raises: already adjusted for MOMA
+                elif helper == "room":
+                    with m:
+                        add_room(m, solution=ref, linear=True)
+                    add_room(m, solution=ref, linear=False, delta=0.125, epsilon=0.25)
+                    if rng.random() < 0.5:
+                        raise RuntimeError("raised by the harness inside the block")
+                elif helper == "fix":
+                    fix_objective_as_constraint(m, fraction=0.5)
+                    with m:
+                        m.reactions[0].knock_out()
+                        fix_objective_as_constraint(m, fraction=0.25)     # replaces the row of the same name
+                elif helper == "loopless":
+                    add_loopless(m)
+                    with m:
+                        add_pfba(m, fraction_of_optimum=1.0)
+                else:
+                    fix_objective_as_constraint(m, fraction=1.0)
+                    with m:
+                        add_pfba(m, fraction_of_optimum=0.0)
+        except (ValueError, RuntimeError, OptimizationError) as e:
+            raised = e
+        now({"net": net, "build": "fba"})                # after the block: the flux-balance problem of the (unchanged) content
+        if auxcorr.net_json(m) != net:
+            raise AssertionError("content changed by a helper inside a context")
+        return pairs
+    auxcorr.stage(ctx, [("analysis helpers inside contexts", f)], gen_bounded_spec, ctx.scale(60, 800))
+    b = [x for x in ctx.broken if "analysis helpers" in x.get("name", "")]
+    if b:
+        # the state after leaving the block is not the flux-balance problem of the content: that is the property itself, with the model as replay
+        ctx.violations.append({"engine": "analysis helpers inside contexts: solver problem after the block vs AuxM.Net.fba of the content",
+                               "case": b[0].get("case"), "failures": b[0].get("detail"), "builder_call": b[0].get("builder_call")})
+
+
 def run(ctx):
     return core_checks.run_core_property(ctx, "CobraModel.Props.C03", kinds=KINDS, oracles=("ctx", "xref", "sync"), quick=300, thorough=6000,
-                                         rule=RULE, maxlen=16, profiles=[KINDS] + coreops.PROFILES[1:])
+                                         rule=RULE, pre_stage=helper_stage, extra_scan=__import__('auxcorr').SCAN, maxlen=16, profiles=[KINDS] + coreops.PROFILES[1:])
 
 
 if __name__ == "__main__":
